@@ -126,6 +126,8 @@ def RandomKCNF(k, n, m, seed=None, planted_assignments=None, formula_class=CNF):
 
     if planted_assignments is None:
         planted_assignments = []
+    # it is iterated once per candidate: a one-shot iterable must be stored
+    planted_assignments = [list(a) for a in planted_assignments]
 
     if k > n:
         raise ValueError("clauses width is {}, and we only have {} variables".format(k,n))
